@@ -23,8 +23,10 @@ observation:
   `pings=<instants|-> to=<time each ping was given until its deadline: one value if all equal, else v1/v2/… | -> close=<instants of Close|-> exit=<0|1> late=<n>`
   (`to`, `exit`, `late` are `-`/`1`/`0` for `kas`, where they cannot be observed from the peer).
   `kss` adds ` warn=<instants of the tolerated-miss log records|-> shut=<instant the transport connection was closed|->
-  live=<a1|-><a2>` (goroutine present at s1 / s2); `close` = instants of the "closing session" log record.
-  `shut` depends on the peer and the transport, not on the loop: the model line copies it, the monitor checks it.
+  live=<a1|-><a2> wblk=<t|->` (goroutine present at s1 / s2); `close` = instants of the "closing session" log record;
+  `wblk`: when keep-alive reported closing, a transport write of that side was blocked until t (the
+  session's Close waits for it).
+  `shut` and `wblk` depend on the peer and the transport, not on the loop: the model line copies them, the monitor checks `shut`.
 
 The model line is `KeepAlive.runCancel` rendered.  The monitor is the property itself: literal
 `I/2`, literal `max 1`, the closing tick found by searching for the first window of `T` consecutive
@@ -94,13 +96,18 @@ def modelObs (sc : Scenario) (impl : String) : String :=
   let to := if sc.real ∨ s.pings.isEmpty then "-" else toString (Generated.KeepAlive.pingTimeout sc.I)
   let base := s!"pings={showNats s.pings} to={to} close={close} exit=1 late=0"
   if sc.sess then
-    let e := endAt sc.I sc.t0 sc.scripts sc.tc
+    -- the goroutine returns when its call of session.Close returns, and that waits for blocked writes
+    let held : Nat := if s.status == .closed then ((kv (words impl) "wblk").bind String.toNat?).getD 0 else 0
+    let e := max (endAt sc.I sc.t0 sc.scripts sc.tc) held
     let alive (t : Nat) : String := if t < e then "1" else "0"
     let a1 := match sc.at1 with
       | some t => alive t
       | none => "-"
     let shut := (kv (words impl) "shut").getD "?"
-    s!"{base} warn={showNats (warnsCancel sc.I sc.t0 sc.scripts sc.tc)} shut={shut} live={a1}{alive sc.at2}"
+    let wblk := match kv (words impl) "wblk" with
+      | some w => s!" wblk={w}"
+      | none => ""
+    s!"{base} warn={showNats (warnsCancel sc.I sc.t0 sc.scripts sc.tc)} shut={shut} live={a1}{alive sc.at2}{wblk}"
   else base
 
 /-! ### The property monitor -/
@@ -154,6 +161,17 @@ def specSched (I tc : Nat) : Nat → Nat → List Script → List SpecPing
         :: specSched I tc p (p + specDur I s) t
     else []
 
+/-- The shape of keepalive-F30: the ping in flight at the cancellation `tc` ran past a tick, and when it
+was over the loop served that pending tick — a ping at the very end of that ping — although it had
+been cancelled. -/
+def f30Shape (I tc : Nat) (sched : List SpecPing) (pings : List Nat) : Option String :=
+  match sched.getLast? with
+  | some l =>
+    if l.stop > tc ∧ l.stop ≥ (l.start / I + 1) * I ∧ pings.contains l.stop then
+      some s!"silent_stop: keepalive-F30: keep-alive sent a ping at {l.stop} although it was cancelled (the session's Close was called) at {tc}: the ping issued at {l.start} was in flight then and ended at {l.stop} with a tick pending, and the loop served the tick instead of the cancellation; keep-alive ends when the session is closed"
+    else none
+  | none => none
+
 /-- The additional clauses of the stream `sessions` (the property's last sentence): after the
 session's Close was called no ping is sent; nothing is logged and no goroutine is left once
 keep-alive had to end — `due`: at the closing ping's end, at the end of the ping that reported
@@ -166,14 +184,17 @@ def monitorSess (sc : Scenario) (o : List String) (pings closes : List Nat) (kst
     let tc := sc.tc
     let endOf (k : Nat) : Nat := if k = 0 then 0 else ((sched[k - 1]?).map (·.stop)).getD 0
     let byCancel : Bool := kstar.isNone ∧ ¬ os.any (· == 1)
-    let due : Nat := if byCancel then max tc (endOf m) else endOf m
+    -- when keep-alive closes the session its goroutine returns when session.Close does, and that waits
+    -- for transport writes that are blocked (`wblk`)
+    let held : Nat := if kstar.isSome then ((kv o "wblk").bind String.toNat?).getD 0 else 0
+    let due : Nat := if byCancel then max tc (endOf m) else max (endOf m) held
     let why : String :=
       if byCancel then s!"the session's Close was called at {tc}"
       else if kstar.isSome then s!"keep-alive closed the session at tick {m}"
       else s!"the peer reported ping as unsupported at tick {m}"
     let afterClose : Option String :=
       match pings.find? (· ≥ tc) with
-      | some p => some s!"silent_stop: keep-alive sent a ping at {p} although the session's Close was called at {tc}; keep-alive ends when the session is closed"
+      | some p => f30Shape sc.I tc sched pings <|> some s!"silent_stop: keep-alive sent a ping at {p} although the session's Close was called at {tc}; keep-alive ends when the session is closed"
       | none => none
     let logged : Option String :=
       match (warn ++ closes).find? (· > due) with
@@ -182,8 +203,11 @@ def monitorSess (sc : Scenario) (o : List String) (pings closes : List Nat) (kst
     let shutc : Option String :=
       match closes with
       | c :: _ =>
+        let wblk : Nat := ((kv o "wblk").bind String.toNat?).getD 0
         match shut.toNat? with
-        | some sh => if sh ≤ c then none else some s!"closes_iff_T_consecutive: keep-alive reported closing the session at {c} but its connection was only closed at {sh}"
+        | some sh =>
+          if sh ≤ c ∨ sh ≤ wblk then none
+          else some s!"closes_iff_T_consecutive: keep-alive reported closing the session at {c} but its connection was only closed at {sh}, although no transport write was blocked until then"
         | none => some s!"closes_iff_T_consecutive: keep-alive reported closing the session at {c} but its connection was never closed"
       | [] => none
     let flag (a : String) (t : Nat) : Option String :=
@@ -274,6 +298,8 @@ def monitor (sc : Scenario) (impl : String) : Option String :=
         some s!"pings_at_ticks: pings at {showNats pings}, expected one at each of the first {m} ticks of {I}"
       else
         some s!"pings_at_ticks: pings at {showNats pings}, expected {showNats want}: one per tick of {I}, a tick that fires during a ping being served when that ping is over"
+    let f30 : Option String :=
+      if kstar.isNone ∧ ¬ os.any (· == 1) ∧ ¬ sc.real then f30Shape I sc.tc sched pings else none
     let deadline : Option String := if sc.real ∨ pings.isEmpty then none else monitorDeadline I pings to
     let quiet : Option String :=
       if exit == "1" ∧ late == "0" then none
@@ -284,9 +310,9 @@ def monitor (sc : Scenario) (impl : String) : Option String :=
       | some (s, j) => some s!"ping_done_before_next_tick: ping {j + 1} lasted {s.delay.getD 0}, longer than its deadline of half an interval ({I / 2}), although its transport write was not blocked then"
       | none => none
     if sc.sess then
-      deadline <|> long <|> (monitorSess sc o pings closes kstar os m sched).filter (·.startsWith "silent_stop: keep-alive sent")
+      f30 <|> deadline <|> long <|> (monitorSess sc o pings closes kstar os m sched).filter (fun c => c.startsWith "silent_stop: keep-alive sent" ∨ c.startsWith "silent_stop: keepalive-F30")
         <|> closing <|> ticks <|> monitorSess sc o pings closes kstar os m sched <|> quiet
-    else closing <|> deadline <|> ticks <|> quiet
+    else f30 <|> closing <|> deadline <|> ticks <|> quiet
   | _, _, _, _, _ => some s!"bad-observation: {impl}"
 
 def engine : Engine Unit where
